@@ -73,7 +73,9 @@ def run_case(acc, case):
     # the id on the command line is two hexadecimal numbers: every spelling of 28e9:0189 names the same device
     dev_id = ['28e9:0189', '28E9:0189', '0x28e9:0x0189', '28e9:189', '028e9:00189', '28e9:0189'][case['sched'] % 6]
     core.see(acc, 'device_id_spellings', dev_id)
-    r = dfusim.run(fw, dev, device_id=dev_id, via_fifo=fifo, optimize=optimize)
+    tty = (len(fw) + dev.pages) % 3 == 1
+    acc['ctr']['runs_on_a_terminal'] += tty
+    r = dfusim.run(fw, dev, device_id=dev_id, via_fifo=fifo, optimize=optimize, tty=tty)
     core.see(acc, 'firmware_delivery', 'named pipe' if fifo else 'regular file')
     acc['n'] += 1
     acc['ctr']['requests_seen'] += len(dev.log)
